@@ -35,7 +35,7 @@ ASSUMPTIONS = [
     'Sharpe/Sortino compared only when their denominator is well conditioned; Sortino only with >= 2 negative returns',
     'float tolerance 1e-9 (drawdowns absolute, other statistics relative)',
 ]
-SHAPES = ['walk', 'up', 'down', 'flat', 'vee', 'spike', 'walk_small', 'nearly_flat']
+SHAPES = ['walk', 'up', 'down', 'flat', 'vee', 'spike', 'walk_small', 'nearly_flat', 'fixed_fee']
 
 
 def build_curve(seed, n, shape, e0):
@@ -55,6 +55,14 @@ def build_curve(seed, n, shape, e0):
         elif shape == 'nearly_flat':
             # a cash account credited a few cents now and then: returns of the order of 1e-8
             e.append(float('%.10g' % (e[-1] + (0.05 if rnd.random() < 0.05 else 0.0))))
+            continue
+        elif shape == 'fixed_fee':
+            # a large account charged a fixed-rate daily fee booked to the cent, with the odd up day: the losing days'
+            # returns agree to seven or eight digits
+            if rnd.random() < 0.85:
+                e.append(round(e[-1] * (1 - 1e-4), 2))
+            else:
+                e.append(round(e[-1] * (1 + rnd.uniform(0, .002)), 2))
             continue
         elif shape == 'vee':
             k = 1 - rnd.uniform(0, .03) if i < n // 2 else 1 + rnd.uniform(0, .04)
@@ -122,9 +130,12 @@ def _panel_numbers(ts_obj, tr, tb):
     import matplotlib.pyplot as plt
     fig = plt.figure()
     try:
-        ax = fig.add_subplot(111)
+        ax0 = fig.add_subplot(211)
+        ax = fig.add_subplot(212)
         with warnings.catch_warnings():
             warnings.simplefilter('ignore')
+            # the order plot_results() uses: the equity chart is drawn first, then the text panel reads the same results
+            ts_obj._plot_equity(tr, bench_stats=tb, ax=ax0)
             ts_obj._plot_txt_curve(tr, bench_stats=tb, ax=ax)
         rows = {6.9: 'total', 5.9: 'cagr', 4.9: 'sharpe', 3.9: 'sortino', 1.9: 'maxdd', 0.9: 'dur'}
         out = {}
@@ -164,6 +175,23 @@ def check_panel(shown, col, o, n, P, who):
     if not lo <= g <= hi:
         raise Violation('tear-sheet text panel shows %s drawdown duration %s; the %s curve\'s longest under-water run is %s' % (
             who, shown['dur'][col], who, lo if lo == hi else (lo, hi)))
+
+
+def _bench_curve(case, idx):
+    """The benchmark curve and its dates; with `benchmark_lead` it starts earlier than the strategy's (its own dates,
+    its own statistics)."""
+    be = case['benchmark']
+    bidx = list(idx)
+    if case.get('benchmark_lead'):
+        d = idx[0]
+        lead = []
+        while len(lead) < case['benchmark_lead']:
+            d -= D.timedelta(days=1)
+            if d.weekday() < 5:
+                lead.append(d)
+        bidx = lead[::-1] + list(idx)
+        be = [be[0] * (1 + 0.001 * ((k * 7) % 5 - 2)) for k in range(len(lead))] + list(be)
+    return be, bidx
 
 
 def run_case(case):
@@ -241,9 +269,11 @@ def run_case(case):
                 raise Violation('Sharpe %r, sqrt(%s) x mean / population deviation = %r' % (float(s['sharpe']), P, want))
             cls.append('sharpe_checked')
         neg = [x for x in r if x < 0]
-        if len(neg) >= 2 and pstd(neg) >= 1e-6 * max(abs(x) for x in neg):
+        if len(neg) >= 2 and pstd(neg) >= 1e-8 * max(abs(x) for x in neg):
             want = math.sqrt(P) * (math.fsum(r) / n) / pstd(neg)
-            if not close(float(s['sortino']), want, 1e-7, 1e-6):
+            # (each return e_t/e_(t-1) - 1 carries an absolute rounding error of about one ulp of 1.0; for nearly equal
+            # losses that noise is large relative to their spread, and the deviation inherits it)
+            if not close(float(s['sortino']), want, max(1e-7, 2e-15 / pstd(neg)), 1e-6):
                 raise Violation('Sortino %r, sqrt(%s) x mean / population deviation of negative returns = %r' % (
                     float(s['sortino']), P, want))
             cls.append('sortino_checked')
@@ -262,11 +292,12 @@ def run_case(case):
         if case.get('panel'):
             tb = None
             if case.get('benchmark'):
-                tb = ts_obj.get_results(pd.DataFrame({'Equity': list(case['benchmark'])}, index=list(idx)))
+                pbe, pbidx = _bench_curve(case, idx)           # possibly starting before the strategy's first date
+                tb = ts_obj.get_results(pd.DataFrame({'Equity': list(pbe)}, index=list(pbidx)))
             shown = _panel_numbers(ts_obj, tr, tb)
             check_panel(shown, 0, o, n, P, 'strategy')
             if tb is not None:
-                check_panel(shown, 1, oracle(case['benchmark'], idx), n, P, 'benchmark')
+                check_panel(shown, 1, oracle(pbe, pbidx), len(pbe), P, 'benchmark')
             cls.append('text_panel_checked' + ('_with_benchmark' if tb is not None else ''))
         pairs = [('sharpe', float(tr['sharpe']), float(s['sharpe'])),
                  ('max_drawdown', float(tr['max_drawdown']), float(s['max_drawdown'])),
@@ -294,18 +325,8 @@ def run_case(case):
             raise Violation('statistics.json series differ from the in-memory statistics')
         # the benchmark section of the JSON export is computed from the benchmark curve, not from the strategy
         if case.get('benchmark'):
-            be = case['benchmark']
-            bidx = list(idx)
+            be, bidx = _bench_curve(case, idx)
             if case.get('benchmark_lead'):
-                # the benchmark curve starts earlier than the strategy's (its own dates, its own statistics)
-                d = idx[0]
-                lead = []
-                while len(lead) < case['benchmark_lead']:
-                    d -= D.timedelta(days=1)
-                    if d.weekday() < 5:
-                        lead.append(d)
-                bidx = lead[::-1] + list(idx)
-                be = [be[0] * (1 + 0.001 * ((k * 7) % 5 - 2)) for k in range(len(lead))] + list(be)
                 cls.append('benchmark_on_other_dates')
             nb = len(be)
             bo = oracle(be, bidx)
@@ -394,6 +415,8 @@ def cases(draw):
     e0 = draw(st.one_of(gen.logu(10, 1e6), st.sampled_from([100.0, 1e6, 1e4])))
     if shape == 'nearly_flat':
         e0 = 2.5e6
+    if shape == 'fixed_fee':
+        e0 = 1e9
     e = build_curve(draw(st.integers(0, 2 ** 31)), n, shape, e0)
     # (only while every value fits a 64-bit integer column exactly: larger Python ints become an object column)
     whole = e0 >= 1e4 and max(e) < 2.0 ** 53 and draw(st.sampled_from([False, False, False, True]))
